@@ -48,6 +48,8 @@ SCENARIOS = [
     # between its two copies leaves a re-run that must copy 3 MiB from the output itself
     ("large-chunk-twice", ["--fixed-size", "3MiB", "--compression", "none"],
      (b"B" * 9 + bytes((i * 5) % 251 for i in range(3 * (1 << 20) - 9))) * 2 + b"C" * 11 + bytes((i * 11) % 249 for i in range(3 * (1 << 20) - 11)), None, None, []),
+    # an update to a SMALLER image: the prior output is much longer than the source
+    ("in-place-to-smaller", ["--fixed-size", "4B", "--compression", "none"], b"AAAABBBBCC", b"BBBBAAAAXXXXYYYYZZZZWWWW", None, ["--seed-output"]),
     # in place AND a seed file: the seed's chunk lands where a chunk sits that the output still needs elsewhere
     ("in-place-with-seed", ["--fixed-size", "4B", "--compression", "none"], b"ZZZZYYYYPPPPQQQQ", b"YYYYPPPPQQQQ", b"ZZZZ", ["--seed-output"]),
     ("in-place-with-seed-swap", ["--fixed-size", "4B", "--compression", "none"], b"AAAABBBBCCCC", b"BBBBAAAAXXXX", b"CCCCAAAA", ["--seed-output"]),
@@ -211,8 +213,10 @@ def run(ctx):
                         raise RuntimeError(f"tear injection did not kill the process (status {r.returncode}) {name}/{kind} k={k} t={t}")
                     local["tears_injected"] += 1
                     distinct.add((name, kind, k, "tear", t))
-                    # re-run in place without the shim
-                    fl = ["--seed-output"]
+                    # re-run in place without the shim (every other tear: with --verify-output as well - whoever checks
+                    # the result of the completed clone must find it complete)
+                    # (regular files only: on a device larger than the source --verify-output hashes the whole device)
+                    fl = ["--seed-output"] + (["--verify-output"] if (k + t) % 2 == 1 and not dev else [])
                     r2 = sh(clone_cmd(fl), env=base_env())
                     detail = {"scenario": name, "kind": kind, "write": k, "of": w, "tear": t, "len": ln}
                     if r2.returncode != 0:
